@@ -41,22 +41,53 @@ def reference(K, x, add, mul):
 
 def pyperm(K, x): return reference(K, [v % P for v in x], lambda a, b: (a + b) % P, lambda a, b: (a * b) % P)
 
-def run_perm(ctx, var, alg):
-    """execute one implementation on symbolic states; returns list over states s of 12 class values"""
-    cfg = cfg_of(var); w = core.world(ctx.bdir, mods(cfg)); w.hooks = dict(w.base_hooks)
-    fmode.install_scalar(w, alg)
-    if var != 'seq': fmode.install_lanes(w, alg, ctx, cfg)
-    S = 2 if var == 'avx512' else 1
-    xs = [[alg.var('x%d_%d' % (s, i)) for i in range(12)] for s in range(S)]
-    inp = Obj(96 * S, 'in', 64); st = Obj(96 * S, 'state', 64)
-    for s in range(S):
-        for i in range(12):
-            idx = i if S == 1 else (i // 4) * 8 + 4 * s + (i % 4)
-            inp.cells[idx] = FV(xs[s][i])
-    it = Interp(w); it.call(HFR[var], [Ptr(st, 0), Ptr(inp, 0)])
-    outs = [[fmode.cls_of(st.cells[i if S == 1 else (i // 4) * 8 + 4 * s + (i % 4)]) for i in range(12)] for s in range(S)]
-    same_in = all(isinstance(inp.cells[i], FV) for i in range(12 * S))
-    return outs, xs, w, sorted(w.contracts_used)
+def run_perm(ctx, var):
+    """execute one implementation on symbolic states, every path; returns [(pc, outs, xs, alg, used, pre_failures)] and the world"""
+    cfg = cfg_of(var); w = core.world(ctx.bdir, mods(cfg)); w.hooks = dict(w.base_hooks); w.soft_pre = True
+    S = 2 if var == 'avx512' else 1; res = []
+    def go(it):
+        alg = fmode.Alg('uf'); fmode.install_scalar(w, alg); fmode.install_predicates(w, alg)
+        if var != 'seq': fmode.install_lanes(w, alg, ctx, cfg)
+        xs = [[alg.var('x%d_%d' % (s, i)) for i in range(12)] for s in range(S)]
+        inp = Obj(96 * S, 'in', 64); st = Obj(96 * S, 'state', 64)
+        for s in range(S):
+            for i in range(12): inp.cells[i if S == 1 else (i // 4) * 8 + 4 * s + (i % 4)] = FV(xs[s][i])
+        it.call(HFR[var], [Ptr(st, 0), Ptr(inp, 0)])
+        outs = [[fmode.cls_of(st.cells[i if S == 1 else (i // 4) * 8 + 4 * s + (i % 4)]) for i in range(12)] for s in range(S)]
+        return outs, xs, alg, sorted(w.contracts_used), list(getattr(w, 'pre_failures', []))
+    paths = explore(w, go, max_paths=6, partial=True)
+    return paths, w
+
+# ---- concrete witnesses: the first half of the permutation is a bijection, so any state entering the partial rounds can be reached
+def matinv(Mx):
+    n = 12; A = [[Mx[j * 12 + i] % P for j in range(n)] + [1 if k == i else 0 for k in range(n)] for i in range(n)]   # out_i = sum_j M[j*12+i] x_j
+    for c in range(n):
+        piv = next(r for r in range(c, n) if A[r][c] % P); A[c], A[piv] = A[piv], A[c]
+        iv = pow(A[c][c], -1, P); A[c] = [v * iv % P for v in A[c]]
+        for r in range(n):
+            if r != c and A[r][c]:
+                f = A[r][c]; A[r] = [(v - f * u) % P for v, u in zip(A[r], A[c])]
+    return [row[n:] for row in A]
+D7 = pow(7, -1, P - 1)
+def root7(v): return pow(v % P, D7, P)
+def invert_first_half(K, y):
+    """input state whose image after the four initial full rounds (state entering the partial rounds) is y"""
+    C, M, Pm = K['C'], K['M'], K['P']; Mi = matinv(M); Pi = matinv(Pm)
+    mv = lambda Ai, v: [sum(Ai[i][j] * v[j] for j in range(12)) % P for i in range(12)]
+    x = mv(Pi, y); x = [root7(x[i] - C[48 + i]) for i in range(12)]
+    for r in (2, 1, 0):
+        x = mv(Mi, x); x = [root7(x[i] - C[(r + 1) * 12 + i]) for i in range(12)]
+    return [(x[i] - C[i]) % P for i in range(12)]
+def special_states(K, rng, extra_t=(), extra_a=()):
+    """inputs that drive the first partial round into rare corners: x0^7 + C[60] in {0, 1, p-1, t...}; other lanes at carry / boundary values"""
+    C = K['C']; out = []
+    ts = [0, 1, P - 1] + list(extra_t); As = [0, 0xFFFFFFFF, 0xFFFFFFFF00000000, P - 1, 1] + list(extra_a)
+    for t in ts:
+        y0 = root7(t - C[60])
+        for a in As[:4] + list(extra_a):
+            out.append(invert_first_half(K, [y0] + [a % P] * 11))
+        out.append(invert_first_half(K, [y0] + [rng.getrandbits(64) % P for _ in range(11)]))
+    return out
 
 def native_perm(ctx, var, states):
     cfg = cfg_of(var); f = core.nfn(ctx.bdir, cfg, HFR[var])
@@ -67,32 +98,76 @@ def native_perm(ctx, var, states):
     ib = kern.u64buf(flat); ob_ = kern.u64buf([0] * (12 * S)); f(ctypes.byref(ob_), ctypes.byref(ib))
     return [[ob_[i if S == 1 else (i // 4) * 8 + 4 * s + (i % 4)] for i in range(12)] for s in range(S)]
 
+def kernel_witness(ctx, var, w, alg, pf, K):
+    """a callee operand assumption could not be discharged at field level: ask the solver, bit-precisely on the real kernels, for a lane
+       operand that violates the assumption AND makes the kernel return the wrong class; returns lists of interesting t / a values"""
+    from . import lanes as L
+    cfg = cfg_of(var); n = 8 if cfg == 'avx512' else 4; T = L.table(n == 8)
+    spec = T.get(pf['kernel'])
+    if spec is None or not spec['pre']: return [], []
+    ts = []; As = []
+    Y = pf['ins'][1]
+    for lane, y in enumerate(Y):
+        if is_c(y) or not isinstance(y, fmode.LF) or len(y.c) != 1: continue
+        (atom, co), = y.c.items()
+        if atom[0] != 'M' or co != 1 or y.k != 0: continue
+        A_, B_ = alg.atom_ops[atom[1]]
+        k = A_.k if A_.isconst() else (B_.k if B_.isconst() else None)
+        if k is None: continue
+        # producer: mult kernel on (t, k); consumer: the kernel with the failed assumption on (a, product)
+        mname = 'mult_avx512' if n == 8 else 'mult_avx'
+        t = core.limb64('t'); a = core.bv64('a'); kk = bvv(k, 64)
+        def mk(w_):
+            o1 = Obj(8 * n, 'prod', 8 * n); ot = core.obj_words('t', [t] * n, 8 * n); ok_ = core.obj_words('k', [kk] * n, 8 * n)
+            return [Ptr(o1, 0), Ptr(ot, 0), Ptr(ok_, 0)], (lambda ret: [core.words(o1)])
+        p1 = kern.run_kernel(ctx, cfg, L.MODS[cfg], L.find(ctx, cfg, mname, T[mname], n), mk)
+        prod = p1[0][2][1][0][0]
+        def mk2(w_):
+            oc = Obj(8 * n, 'c', 8 * n); oa = core.obj_words('a', [a] * n, 8 * n); ob_ = core.obj_words('b', [prod] * n, 8 * n)
+            return [Ptr(oc, 0), Ptr(oa, 0), Ptr(ob_, 0)], (lambda ret: [core.words(oc)])
+        p2 = kern.run_kernel(ctx, cfg, L.MODS[cfg], pf['fn'], mk2)
+        out = p2[0][2][1][0][0]
+        # is there (t, a) for which the consumer's lane specification fails on the producer's actual output representation?
+        r = smt.prove(lambda tr: spec['goal'](L.Z(tr, {'a': a, 'b': prod}, [out])), assumptions=[lambda tr: tr.val(t) < P], timeout=60,
+                      variants=[dict(limb_min=0, abstract=False, logic='QF_NIA', share=0.5), dict(limb_min=0, abstract=False, logic=None, share=0.5)])
+        if r.status == 'sat':
+            ts.append(core.limbval(r.model, 't')); As.append(r.model.get('a', 0))
+        break
+    return ts, As
+
 def ob_perm(ctx, var):
-    alg = fmode.Alg('uf')
-    try: outs, xs, w, used = run_perm(ctx, var, alg)
-    except Violation as e: return viol('perm/%s/%s' % (var, e.kind), 'hash_full_result (%s): %s' % (var, e.msg), replay=dict(event=str(e)))
+    try: paths, w = run_perm(ctx, var)
+    except Unsupported as e: return inconc('hash_full_result (%s): %s' % (var, e))
     K = consts(w)
     # ground facts about the tables: M_ / P_ are the transposed flattenings of M / P used by the vector code
     for nm, flat, sq in (('M_', K['M_'], K['M']), ('P_', K['P_'], K['P'])):
         if any(flat[12 * r + m] != sq[12 * m + r] for r in range(12) for m in range(12)): return viol('perm/tables', 'table %s is not the transposed layout of its 12x12 matrix' % nm, replay=dict(event='tables'))
-    natoms_impl = len(alg.atoms); nq = 0
-    for s in range(len(xs)):
-        ref = reference(K, xs[s], alg.add, alg.mul)
-        for i in range(12):
-            sv = z3.Solver(); sv.set('timeout', 60000); sv.add((alg.toz3(outs[s][i]) - alg.toz3(ref[i])) % P != 0); r = sv.check(); nq += 1; smt.STATS['queries'] += 1
-            if r == z3.unsat: continue
-            # not provably equal at the abstraction level: look for a concrete state on which the native code differs from the reference
-            return confirm_perm(ctx, var, K, 'output %d of state %d is not provably the specified permutation' % (i, s), sv.model() if r == z3.sat else None, len(xs))
-    return ok('%d outputs ≡ reference; %d product atoms in the implementation run, %d after the reference (all reference products merge with implementation products when equal); contracts: %s' % (12 * len(xs), natoms_impl, len(alg.atoms), ', '.join(used)),
-              sample=dict(implementation=var, states=len(xs), product_atoms=len(alg.atoms), queries=nq))
+    nq = 0; natoms = 0; used = []
+    for p in paths:
+        if p.status != 'ok': return viol('perm/%s/%s' % (var, getattr(p.result, 'kind', 'terminated')), 'hash_full_result (%s): %s' % (var, p.result), replay=dict(event=str(p.result)))
+        outs, xs, alg, used, pfs = p.result; natoms = max(natoms, len(alg.atoms))
+        if pfs:
+            pf = pfs[0]; ts, As = kernel_witness(ctx, var, w, alg, pf, K)
+            return confirm_perm(ctx, var, K, 'the operand assumption of Goldilocks::%s is not implied at its call site (%s)' % (pf['kernel'], pf['msg'][:80]), None, len(xs), extra_t=ts, extra_a=As)
+        for s in range(len(xs)):
+            ref = reference(K, xs[s], alg.add, alg.mul)
+            for i in range(12):
+                sv = z3.Solver(); sv.set('timeout', 60000); sv.add(p.pc); sv.add((alg.toz3(outs[s][i]) - alg.toz3(ref[i])) % P != 0); r = sv.check(); nq += 1; smt.STATS['queries'] += 1
+                if r == z3.unsat: continue
+                return confirm_perm(ctx, var, K, 'output %d of state %d is not provably the specified permutation%s' % (i, s, ' on a data-dependent path' if p.pc else ''), sv.model() if r == z3.sat else None, len(xs))
+    if len(paths) != 1 or w.explore_incomplete: return inconc('hash_full_result (%s): data-dependent control flow (%d paths explored%s), all explored paths agree with the reference' % (var, len(paths), ', exploration incomplete' if w.explore_incomplete else ''))
+    return ok('%d outputs ≡ reference; %d product atoms (implementation and reference land on the same atoms); contracts: %s' % (12 * len(paths[0].result[1]), natoms, ', '.join(used)),
+              sample=dict(implementation=var, states=len(paths[0].result[1]), product_atoms=natoms, queries=nq))
 
-def confirm_perm(ctx, var, K, text, model, S):
+def confirm_perm(ctx, var, K, text, model, S, extra_t=(), extra_a=()):
     rng = ctx.rng('perm' + var); cands = []
     if model is not None:
         vals = {str(d): model[d].as_long() % P for d in model.decls() if z3.is_int_value(model[d])}
         cands.append([[vals.get('x%d_%d' % (s, i), 0) for i in range(12)] for s in range(S)])
     cands.append([[i + 12 * s for i in range(12)] for s in range(S)]); cands.append([[P - 1 - i for i in range(12)] for s in range(S)])
     cands += [[[rng.getrandbits(64) for i in range(12)] for s in range(S)] for _ in range(4)]
+    sp = special_states(K, rng, extra_t, extra_a)
+    cands += [[st_] * S for st_ in sp]
     for st in cands:
         got = native_perm(ctx, var, st)
         if got is None: got = interp_perm(ctx, var, st)
@@ -101,7 +176,7 @@ def confirm_perm(ctx, var, K, text, model, S):
             if [g % P for g in got[s]] != exp:
                 i = [k for k in range(12) if got[s][k] % P != exp[k]][0]
                 return viol('perm/' + var, 'hash_full_result%s: %s; native run on state %s gives word %d = %d, the specified permutation gives %d' % ({'seq': '_seq', 'avx': '', 'avx512': '_avx512'}[var], text, st[s], i, got[s][i] % P, exp[i]), replay=dict(kind='perm', var=var, states=st))
-    return inconc('hash_full_result (%s): %s, but no concrete state reproduces a difference' % (var, text))
+    return inconc('hash_full_result (%s): %s, but none of %d concrete candidate states (solver model, fixed, seeded random, %d states driving the first partial round into rare corners) reproduces a difference' % (var, text, len(cands), len(sp)))
 
 def interp_perm(ctx, var, states):
     cfg = cfg_of(var); w = core.world(ctx.bdir, mods(cfg)); w.reset(); w.hooks = dict(w.base_hooks); S = len(states)
